@@ -517,6 +517,12 @@ impl Server {
                 
                 // a key that is empty, missing or (now) of another type has nothing for this client
                 if let Ok(Some(value)) = popped {
+                    // a pop performed on behalf of a blocked client changes the dataset like any other
+                    let pop_name = match state.op_type {
+                        super::connection::BlockingOp::BRPop => "RPOP",
+                        _ => "LPOP",
+                    };
+                    self.log_to_aof(*key_db, &[RespFrame::from_string(pop_name), RespFrame::from_bytes(key.clone())]);
                     let response = RespFrame::Array(Some(vec![
                         RespFrame::from_bytes(key.clone()),
                         RespFrame::from_bytes(value),
@@ -1649,6 +1655,15 @@ impl Server {
     }
     
     /// Check if a command is a write command that should be logged to AOF
+    /// Write a command to the AOF (if enabled) as executed in database `db`
+    fn log_to_aof(&self, db: usize, parts: &[RespFrame]) {
+        if let Some(aof) = &self.aof_engine {
+            if let Err(e) = aof.append_command_in_db(db, parts) {
+                eprintln!("Failed to append to AOF: {}", e);
+            }
+        }
+    }
+    
     fn is_write_command(&self, command: &str) -> bool {
         if command == "SCRIPT" {
             // SCRIPT FLUSH is a write command, but other SCRIPT subcommands are not
@@ -3174,6 +3189,8 @@ impl Server {
         // Try non-blocking first (fast path)
         for key in &keys {
             if let Some(value) = self.storage.lpop(db_index, key)? {
+                // the pop that took effect is what the AOF must replay
+                self.log_to_aof(db_index, &[RespFrame::from_string("LPOP"), RespFrame::from_bytes(key.clone())]);
                 return Ok(RespFrame::Array(Some(vec![
                     RespFrame::from_bytes(key.clone()),
                     RespFrame::from_bytes(value),
@@ -3238,6 +3255,8 @@ impl Server {
         // Try non-blocking first (fast path)  
         for key in &keys {
             if let Some(value) = self.storage.rpop(db_index, key)? {
+                // the pop that took effect is what the AOF must replay
+                self.log_to_aof(db_index, &[RespFrame::from_string("RPOP"), RespFrame::from_bytes(key.clone())]);
                 return Ok(RespFrame::Array(Some(vec![
                     RespFrame::from_bytes(key.clone()),
                     RespFrame::from_bytes(value),
